@@ -10,6 +10,7 @@ stamp, `local_names_match` removes unbuildable classes from the index while
 `find_type_by_fields` is iterating over it.
 -/
 import XsdataModel.Ctx.Universe
+import XsdataModel.Ctx.Serialize
 
 namespace Xs.Ctx
 open Py
@@ -32,6 +33,7 @@ inductive Out
   | gotType (o : Option ClassId)
   | gotBool (b : Bool)
   | done
+  | gotNames (l : List Str)
   | raised (e : Err)
   deriving DecidableEq, Repr
 
@@ -145,6 +147,10 @@ def doFindTypeByFields (U : Universe) (w : World) (s : State) (names : List Str)
   | (s1, .error e) => (s1, .error e)
   | (s1, .ok choices) => (s1, .ok ((bestChoice choices).map (·.1)))
 
+/-- `EventGenerator.generate` against a shared context: the START qnames in document order -/
+def serialize (U : Universe) (s : State) (toks : List Tok) : State × Except Err (List Str) :=
+  serWalk (fun s c p => doBuild U s c p) toks s [] []
+
 inductive Op
   | build (c : ClassId) (pns : Option Str)
   | fetch (c : ClassId) (pns xsi : Option Str)
@@ -155,6 +161,7 @@ inductive Op
   | localNamesMatch (names : List Str) (c : ClassId)
   | buildXsiCache
   | reset
+  | serialize (toks : List Tok)
   deriving DecidableEq, Repr
 
 def outMeta : Except Err Meta → Out
@@ -178,6 +185,10 @@ def step (U : Universe) (w : World) (s : State) : Op → State × Out
     | (s', .error e) => (s', .raised e)
   | .buildXsiCache => (doBuildXsi U w s, .done)
   | .reset => (State.init, .done)
+  | .serialize toks =>
+    match serialize U s toks with
+    | (s', .ok l) => (s', .gotNames l)
+    | (s', .error e) => (s', .raised e)
 
 /-- run a history of calls (each in the world current at that time) on one instance -/
 def run (U : Universe) (s : State) : List (World × Op) → State
